@@ -268,8 +268,87 @@ func projConst(v compile.ConstantValue) string {
 	return fmt.Sprintf("%T", v)
 }
 
+// illTyped lists the places where a linked constant value does not have the form of its declared type (a value that was
+// stored without being cast: an integer in a double field, a list literal in a set, an unresolved reference ...).
+func illTyped(v compile.ConstantValue, t compile.TypeSpec, path string, depth int, out *[]string) {
+	if v == nil || t == nil || depth > 8 {
+		return
+	}
+	bad := func() { *out = append(*out, fmt.Sprintf("%s: %T for %s", path, v, t.ThriftName())) }
+	if ref, ok := v.(compile.ConstReference); ok {
+		if ref.Target != nil {
+			illTyped(ref.Target.Value, t, path+"->"+ref.Target.Name, depth+1, out)
+		}
+		return
+	}
+	switch rt := compile.RootTypeSpec(t).(type) {
+	case *compile.BoolSpec:
+		if _, ok := v.(compile.ConstantBool); !ok {
+			bad()
+		}
+	case *compile.I8Spec, *compile.I16Spec, *compile.I32Spec, *compile.I64Spec:
+		if _, ok := v.(compile.ConstantInt); !ok {
+			bad()
+		}
+	case *compile.DoubleSpec:
+		if _, ok := v.(compile.ConstantDouble); !ok {
+			bad()
+		}
+	case *compile.StringSpec, *compile.BinarySpec:
+		if _, ok := v.(compile.ConstantString); !ok {
+			bad()
+		}
+	case *compile.EnumSpec:
+		if _, ok := v.(compile.EnumItemReference); !ok {
+			bad()
+		}
+	case *compile.ListSpec:
+		l, ok := v.(compile.ConstantList)
+		if !ok {
+			bad()
+			return
+		}
+		for i, e := range l {
+			illTyped(e, rt.ValueSpec, fmt.Sprintf("%s[%d]", path, i), depth+1, out)
+		}
+	case *compile.SetSpec:
+		l, ok := v.(compile.ConstantSet)
+		if !ok {
+			bad()
+			return
+		}
+		for i, e := range l {
+			illTyped(e, rt.ValueSpec, fmt.Sprintf("%s[%d]", path, i), depth+1, out)
+		}
+	case *compile.MapSpec:
+		m, ok := v.(compile.ConstantMap)
+		if !ok {
+			bad()
+			return
+		}
+		for i, e := range m {
+			illTyped(e.Key, rt.KeySpec, fmt.Sprintf("%s{k%d}", path, i), depth+1, out)
+			illTyped(e.Value, rt.ValueSpec, fmt.Sprintf("%s{v%d}", path, i), depth+1, out)
+		}
+	case *compile.StructSpec:
+		st, ok := v.(*compile.ConstantStruct)
+		if !ok {
+			bad()
+			return
+		}
+		for _, f := range rt.Fields {
+			if fv, ok := st.Fields[f.Name]; ok {
+				illTyped(fv, f.Type, path+"."+f.Name, depth+1, out)
+			}
+		}
+	case nil:
+		// the root of the type is not known (reported elsewhere)
+	}
+}
+
 func dumpModule(root *compile.Module) wj.J {
 	var roots, consts, parents, targets []wj.J
+	ill := []string{}
 	shared := true
 	byPath := map[string]*compile.Module{}
 	var mods []string
@@ -308,6 +387,21 @@ func dumpModule(root *compile.Module) wj.J {
 		for _, n := range names {
 			c := m.Constants[n]
 			consts = append(consts, wj.J{"key": []string{m.Name, n}, "v": projConst(c.Value), "ty": projType(c.Type)})
+			illTyped(c.Value, c.Type, m.Name+"."+n, 0, &ill)
+		}
+		var tnames []string
+		for n := range m.Types {
+			tnames = append(tnames, n)
+		}
+		sort.Strings(tnames)
+		for _, n := range tnames {
+			if st, ok := m.Types[n].(*compile.StructSpec); ok {
+				for _, f := range st.Fields {
+					if f.Default != nil {
+						illTyped(f.Default, f.Type, m.Name+"."+n+"."+f.Name+"=", 0, &ill)
+					}
+				}
+			}
 		}
 		names = names[:0]
 		for n := range m.Services {
@@ -334,7 +428,9 @@ func dumpModule(root *compile.Module) wj.J {
 		}
 		return xs
 	}
-	return wj.J{"roots": sortJ(roots), "targets": sortJ(targets), "consts": sortJ(consts), "parents": sortJ(parents), "shared": shared, "mods": mods}
+	sort.Strings(ill)
+	return wj.J{"roots": sortJ(roots), "targets": sortJ(targets), "consts": sortJ(consts), "parents": sortJ(parents), "shared": shared, "mods": mods,
+		"illtyped": ill}
 }
 
 func compileOrdered(files map[string]string, order []step, natural bool) (wj.J, string) {
@@ -350,7 +446,7 @@ func compileOrdered(files map[string]string, order []step, natural bool) (wj.J, 
 		m, err = compile.CompileWithLinkOrder("/v/a.thrift", steps, compile.Filesystem(memFS(files)))
 	}
 	if err != nil {
-		return wj.J{"roots": []wj.J{}, "targets": []wj.J{}, "consts": []wj.J{}, "parents": []wj.J{}, "shared": true, "mods": []string{}}, err.Error()
+		return wj.J{"roots": []wj.J{}, "targets": []wj.J{}, "consts": []wj.J{}, "parents": []wj.J{}, "shared": true, "mods": []string{}, "illtyped": []string{}}, err.Error()
 	}
 	return dumpModule(m), ""
 }
@@ -398,7 +494,7 @@ func cmdC07(args []string) error {
 			if o["panic"] == "" {
 				o["ok"], o["err"], o["dump"] = emsg == "", emsg, dump
 			} else {
-				o["dump"] = wj.J{"roots": []wj.J{}, "targets": []wj.J{}, "consts": []wj.J{}, "parents": []wj.J{}, "shared": true, "mods": []string{}}
+				o["dump"] = wj.J{"roots": []wj.J{}, "targets": []wj.J{}, "consts": []wj.J{}, "parents": []wj.J{}, "shared": true, "mods": []string{}, "illtyped": []string{}}
 			}
 			return out.write(o)
 		}
